@@ -908,6 +908,30 @@ class PathEval:
                 f = t["func"]
                 args = tuple(self.operand(st, a) for a in t["args"])
                 path = f["path"]
+                if norm_path(path) in ("std::mem::take", "core::mem::take", "std::mem::replace", "core::mem::replace") and args and t["target"] is not None \
+                        and isinstance(args[0], tuple) and args[0]:
+                    # mem::take(&mut x) / mem::replace(&mut x, v): evaluates to the old value of x and stores the type's default / v into x
+                    # (the argument is `&mut x` itself, or a `&mut` reference held in a variable / captured by a closure: the place is what it points to)
+                    plc = args[0][1] if args[0][0] == "refmut" and isinstance(args[0][1], tuple) else ("deref", args[0])
+                    is_take = norm_path(path).endswith("::take")
+                    ty = (f.get("gargs") or ["?"])[0]
+                    if is_take:
+                        newv = ("const", "bool", False) if ty == "bool" else (("const", ty, 0) if ty in ("usize", "u8", "u16", "u32", "u64", "i8", "i16", "i32", "i64", "isize") else
+                                                                              ("call", "<T as std::default::Default>::default", (ty,), (), None))
+                    else:
+                        newv = args[1] if len(args) > 1 else None
+                    if newv is not None:
+                        if plc[0] == "loc":
+                            old = plc[2] if len(plc) > 2 else self.read_local(st, plc[1])
+                            st["env"][plc[1]] = newv
+                            events = events + [Event("store", bb, place=("loc", plc[1]), value=newv, local=plc[1], raw=None)]
+                        else:
+                            old = st["mem"].get(plc, plc)
+                            st["mem"][plc] = newv
+                            events = events + [Event("store", bb, place=plc, value=newv, local=None, raw=None)]
+                        self.assign(st, t["dest"], old, bb, events)
+                        bb = t["target"]
+                        continue
                 if "array::IntoIter<" in f["full"] and path.endswith("Iterator>::next") and args and st.get("unroll"):
                     r = args[0]
                     rl = r[1][1] if isinstance(r, tuple) and r[0] == "refmut" and isinstance(r[1], tuple) and r[1][0] == "loc" else None
